@@ -1,6 +1,8 @@
 """C03 - rectangular-family candidate fields stay on the land and respect spacing.
 
 Decided (structure of domains.py / coordinates.py / design.py):
+  R03.0  the swap block is a swap: one alias gets the longer side, the other the shorter, every further alias follows one
+         of the two axes, the transpose flag is set exactly where the long alias takes the y parameter
   R03.1  canonical-frame discipline: in a generator that aliases its parameters with the two-branch swap
          idiom (long side first), a raw parameter that was aliased never flows - after the swap - into a
          spacing or into an argument of a coordinate generator.  Mixed frames put boreholes outside
@@ -12,6 +14,8 @@ Decided (structure of domains.py / coordinates.py / design.py):
   R03.3  counts and spacings: every count range ends at floor(L / b_min + 1) for the side L it counts, the
          spacing derived from a count n is L / (n - 1) for the same L; rectangle's second count is
          floor(L2 / b + 1); near-square uses n = floor(length / b) + 1 and n x n / n x (n+1) grids at spacing b
+  R03.4  extents: per generator call and axis, the spacing is side / (N - 1) of that axis' own side and every count on that
+         axis is provably <= N (N itself, a loop variable ranging below it, 1, or the floor count of a shared spacing)
   R03.5  primitives: rectangle() places (x0 + i*sx, y0 + j*sy) for i < nx, j < ny; transpose_coordinates swaps
          the two components of every point
 
@@ -89,6 +93,48 @@ def check(prog: Program, tier: str) -> Result:
     res.count("swap_idiom_functions", len(swap_funcs))
     res.floor("swap_idiom_functions", 4)
 
+    # ---------------- R03.0 the swap block itself: long side first, every alias follows one of the two sides, flag = swapped
+    for fi, (swap_if, aliases, flag) in swap_funcs:
+        t = swap_if.test
+        A, B = t.left.id, t.comparators[0].id
+        a_larger_in_true = isinstance(t.ops[0], (ast.Gt, ast.GtE))
+
+        def axis(nm):
+            return "x" if nm.endswith("_x") else ("y" if nm.endswith("_y") else None)
+
+        def partner(nm):
+            return nm[:-1] + ("y" if nm.endswith("x") else "x") if axis(nm) else None
+
+        okpair = all(axis(rt) and partner(rt) == rf for rt, rf in aliases.values()) and partner(A) == B
+        long_alias = [k for k, (rt, rf) in aliases.items() if (rt, rf) == ((A, B) if a_larger_in_true else (B, A))]
+        short_alias = [k for k, (rt, rf) in aliases.items() if (rt, rf) == ((B, A) if a_larger_in_true else (A, B))]
+        ok = okpair and len(long_alias) == 1 and len(short_alias) == 1
+        # an alias "goes with" the long side if it takes the same axis as the long alias in both branches
+        if ok:
+            la = aliases[long_alias[0]]
+            for k, (rt, rf) in aliases.items():
+                with_long = axis(rt) == axis(la[0]) and axis(rf) == axis(la[1])
+                with_short = axis(rt) == axis(la[1]) and axis(rf) == axis(la[0])
+                ok = ok and (with_long or with_short)
+        res.ob("R03.0", f"{fi.name}: the swap block gives one alias the longer of ({A}, {B}) and the other the shorter, and every other alias follows one of the two axes ({aliases})", ok, prog.loc(fi, swap_if))
+        if not ok:
+            res.violation("R03.0", f"swap-block|{fi.name}|{sorted(aliases.items())}", prog.loc(fi, swap_if), fi.qualname,
+                          f"the long-side-first swap of {fi.name} is not a swap: {aliases} under '{ast.unparse(t)}' - an alias takes the same parameter in both branches or mixes the axes, "
+                          "so the candidate grid is laid out for a different rectangle than the land")
+        if flag is not None and ok:
+            # the flag must be True exactly where the long alias takes the y parameter (the grid is built x-long and transposed back)
+            fl = {}
+            for blk, key in ((swap_if.body, True), (swap_if.orelse, False)):
+                for st_ in blk:
+                    if isinstance(st_, ast.Assign) and isinstance(st_.targets[0], ast.Name) and st_.targets[0].id == flag:
+                        fl[key] = st_.value.value
+            la = aliases[long_alias[0]]
+            okf = fl.get(True) == (axis(la[0]) == "y") and fl.get(False) == (axis(la[1]) == "y")
+            res.ob("R03.0", f"{fi.name}: {flag} is True exactly in the branch where the long alias takes the y parameter", okf, prog.loc(fi, swap_if))
+            if not okf:
+                res.violation("R03.0", f"swap-flag|{fi.name}|{fl}", prog.loc(fi, swap_if), fi.qualname,
+                              f"{flag} is {fl} while the long side is ({la[0]} | {la[1]}): fields are transposed when they should not be (or the reverse) and leave the land when length != width")
+
     # ---------------- R03.1 taint
     for fi, (swap_if, aliases, flag) in swap_funcs:
         res.analysed(fi.qualname)
@@ -146,6 +192,7 @@ def check(prog: Program, tier: str) -> Result:
         _check_transpose(prog, res, fi)
 
     _check_counts(prog, res)
+    _check_extents(prog, res)
     _check_primitives(prog, res)
     _check_shapes(prog, res)
     return res
@@ -380,6 +427,15 @@ def _check_counts(prog: Program, res: Result):
                 nvar = r.left.id
                 side = _count_side(fi.node, nvar, s, eng, st)
                 if side is None:
+                    # a count that is a swapped PARAMETER (n_1 <- n_x | n_y) counts along the side that takes the same axis
+                    sw_ = find_swap(fi.node)
+                    if sw_ and nvar in sw_[1]:
+                        rt, rf = sw_[1][nvar]
+                        for k_, (lt, lf) in sw_[1].items():
+                            if k_ != nvar and lt.startswith("length") and lt[-1] == rt[-1] and lf[-1] == rf[-1]:
+                                side = st.env.get(k_)
+                                side = side if isinstance(side, Rat) else None
+                if side is None:
                     continue
                 try:
                     num = eng.eval(s.value.left, st)
@@ -394,7 +450,7 @@ def _check_counts(prog: Program, res: Result):
                     res.violation("R03.3", f"spacing-side|{fname}|{norm_stmt(s)}", prog.loc(fi, s), fi.qualname,
                                   f"the spacing is {num.key()} / ({nvar} - 1) but {nvar} counts boreholes along {side.key()}: the row no longer spans exactly that side")
     res.count("spacings_from_counts", n_sp)
-    res.floor("spacings_from_counts", 12)
+    res.floor("spacings_from_counts", 16)
 
     # rectangular: the second count is floor(length_2 / b + 1) with b the spacing derived from the first count
     fi = prog.func(f"{DOM}.rectangular")
@@ -475,6 +531,151 @@ def _check_counts(prog: Program, res: Result):
     if not ok:
         res.violation("R03.3", f"nearsquare-grid|{norm_stmt(rc[0])}|{loops}", prog.loc(sq, rc[0]), sq.qualname,
                       f"near-square fields are {norm_stmt(rc[0])} over loops {loops}, not n x n / n x (n+1) grids at spacing b")
+
+
+GEN_COUNT_AXIS = {  # generator -> {count parameter: axis}; spacing parameters are *_x / *_y of the same call
+    "rectangle": {"num_bh_x": "x", "num_bh_y": "y"}, "open_rectangle": {"num_bh_x": "x", "num_bh_y": "y"},
+    "zoned_rectangle": {"n_x": "x", "n_y": "y"}, "l_shape": {"n_x": "x", "n_y": "y"},
+    "lop_u": {"n_x": "x", "n_y_1": "y", "n_y_2": "y"}, "c_shape": {"n_x_1": "x", "n_y": "y", "n_x_2": "x"},
+}
+GEN_SPACING = {"rectangle": ("spacing_x", "spacing_y"), "open_rectangle": ("spacing_x", "spacing_y"), "zoned_rectangle": ("b_x", "b_y"),
+               "l_shape": ("b_x", "b_y"), "lop_u": ("b_x", "b_y"), "c_shape": ("b_x", "b_y")}
+
+
+def _check_extents(prog: Program, res: Result):
+    """R03.4: every call of a coordinate generator in the domain builders is given, per axis of the canonical frame, a spacing
+    that was derived from THAT axis' side (x: the long alias, y: the short one) as side / (N - 1), and counts that cannot
+    exceed the N the spacing was derived from - so (count - 1) * spacing <= side and the field stays on the land.  A count is
+    accepted when it is N itself, a loop variable whose range ends at or below N (N's own range start counts as a lower bound
+    of N), the literal 1, or - where one spacing serves both axes - the floor(side_y / spacing + 1) count."""
+    n_calls = 0
+    for fname in ("rectangular", "bi_rectangular", "zoned_rectangle_domain", "bi_rectangle_zoned_nested"):
+        fi = prog.func(f"{DOM}.{fname}")
+        sw = find_swap(fi.node)
+        if not sw:
+            raise AnalysisError(f"{fi.qualname}: swap block not found")
+        t = sw[0].test
+        A_, B_ = t.left.id, t.comparators[0].id
+        a_larger_in_true = isinstance(t.ops[0], (ast.Gt, ast.GtE))
+        long_alias = next((k for k, (rt, rf) in sw[1].items() if (rt, rf) == ((A_, B_) if a_larger_in_true else (B_, A_))), None)
+        short_alias = next((k for k, (rt, rf) in sw[1].items() if (rt, rf) == ((B_, A_) if a_larger_in_true else (A_, B_))), None)
+        if long_alias is None or short_alias is None:
+            continue  # reported by R03.0
+        eng, st = _straight_env(prog, fi, branch=0)
+        side_of_axis = {"x": st.env[long_alias], "y": st.env[short_alias]}
+        # loop ranges: var -> (lo Rat, hi-exclusive Rat)
+        rng = {}
+        for lp in ast.walk(fi.node):
+            if isinstance(lp, ast.For) and isinstance(lp.target, ast.Name):
+                it = lp.iter
+                if isinstance(it, ast.Name):
+                    d_ = next((x.value for x in ast.walk(fi.node) if isinstance(x, ast.Assign) and len(x.targets) == 1 and isinstance(x.targets[0], ast.Name) and x.targets[0].id == it.id), None)
+                    it = d_ if d_ is not None else it
+                while isinstance(it, ast.Call) and attr_chain(it.func) == "list" and it.args:
+                    it = it.args[0]
+                if isinstance(it, ast.Call) and attr_chain(it.func) == "range" and 1 <= len(it.args) <= 2:
+                    lo = eng.eval(it.args[0], st) if len(it.args) == 2 else Rat.const(0)
+                    hi = eng.eval(it.args[-1], st)
+                    if isinstance(lo, Rat) and isinstance(hi, Rat):
+                        rng.setdefault(lp.target.id, []).append((lo, hi, lp))
+        # spacings: name -> (side Rat, count name)
+        sp = {}
+        for a_ in ast.walk(fi.node):
+            if isinstance(a_, ast.Assign) and len(a_.targets) == 1 and isinstance(a_.targets[0], ast.Name) and isinstance(a_.value, ast.BinOp) and isinstance(a_.value.op, ast.Div):
+                r_ = a_.value.right
+                if isinstance(r_, ast.Name):
+                    r_ = inline_single_defs(fi.node, r_, depth=1)
+                if isinstance(r_, ast.BinOp) and isinstance(r_.op, ast.Sub) and isinstance(r_.left, ast.Name) and isinstance(r_.right, ast.Constant) and r_.right.value == 1:
+                    num = eng.eval(a_.value.left, st)
+                    if isinstance(num, Rat):
+                        sp[a_.targets[0].id] = (num, r_.left.id)
+        second_counts = {}  # name -> spacing name, for  n2 = floor(side_y / S + 1)
+        for a_ in ast.walk(fi.node):
+            if isinstance(a_, ast.Assign) and len(a_.targets) == 1 and isinstance(a_.targets[0], ast.Name) and isinstance(a_.value, ast.Call) and attr_chain(a_.value.func) == "floor":
+                for S_ in sp:
+                    st2 = st.fork()
+                    st2.env[S_] = Rat.atom("S")
+                    v = eng.eval(inline_single_defs(fi.node, a_.value, keep={S_}), st2)
+                    if isinstance(v, Rat):
+                        arg = sym_single_call(v, "floor")
+                        if arg is not None and arg.equals(Rat.const(1) + side_of_axis["y"] / Rat.atom("S")):
+                            second_counts[a_.targets[0].id] = S_
+
+        def value_of(e_):
+            v = eng.eval(e_, st)
+            return v if isinstance(v, Rat) else None
+
+        def ranges_at(name: str, site: ast.AST):
+            """ranges of the loop variable `name` that are in force at `site`: those of the enclosing loops; all of them if none encloses"""
+            all_ = rng.get(name, [])
+            enc = [(lo, hi) for lo, hi, lp in all_ if any(site is x for x in ast.walk(lp))]
+            return enc if enc else [(lo, hi) for lo, hi, _ in all_]
+
+        def at_most(c_expr, N: str, label: str, site: ast.AST = None):
+            """is the count expression provably <= the count N ?  -> (ok, why)"""
+            if isinstance(c_expr, ast.Name) and c_expr.id == N:
+                return True, f"{label} is {N}"
+            if isinstance(c_expr, ast.Constant) and c_expr.value == 1:
+                return True, f"{label} is 1"
+            n_lo = [lo for lo, _ in ranges_at(N, site)]
+            cmax = []
+            if isinstance(c_expr, ast.Name) and c_expr.id in rng:
+                cmax = [hi - Rat.const(1) for _, hi in ranges_at(c_expr.id, site)]
+            else:
+                v = value_of(c_expr)
+                cmax = [v] if v is not None else []
+            if not cmax:
+                return False, f"{label} = {ast.unparse(c_expr)} not understood"
+            Nv = value_of(ast.Name(id=N, ctx=ast.Load())) or Rat.atom(N)
+            for cm in cmax:
+                d = cm - Nv
+                ok_ = d.is_const() and d.const_value() <= 0
+                if not ok_ and n_lo:
+                    ok_ = all((cm - lo).is_const() and (cm - lo).const_value() <= 0 for lo in n_lo)
+                if not ok_:
+                    return False, f"{label} can reach {cm.key()[:50]}, which is not bounded by {N}"
+            return True, f"{label} <= {N}"
+
+        for c in ast.walk(fi.node):
+            if not (isinstance(c, ast.Call) and attr_chain(c.func) in GEN_COUNT_AXIS):
+                continue
+            g = attr_chain(c.func)
+            b = bind_args(prog.func(f"{COORD}.{g}"), c)
+            sx_p, sy_p = GEN_SPACING[g]
+            sxa, sya = b.get(sx_p), b.get(sy_p)
+            n_calls += 1
+            problems = []
+            if not (isinstance(sxa, ast.Name) and isinstance(sya, ast.Name) and sxa.id in sp and sya.id in sp):
+                problems.append(f"spacings ({ast.unparse(sxa) if sxa is not None else '?'}, {ast.unparse(sya) if sya is not None else '?'}) are not side / (count - 1) locals")
+            else:
+                same = sxa.id == sya.id
+                for axis, sa in (("x", sxa), ("y", sya)):
+                    side, N = sp[sa.id]
+                    if not same or axis == "x":
+                        if not side.equals(side_of_axis[axis]):
+                            problems.append(f"the {axis}-spacing {sa.id} is derived from {side.key()} instead of the {'long' if axis == 'x' else 'short'} side {side_of_axis[axis].key()}")
+                    for pname, pax in GEN_COUNT_AXIS[g].items():
+                        if pax != axis or pname not in b:
+                            continue
+                        ce = b[pname]
+                        if same and axis == "y":
+                            # one spacing for both axes: the y count is bounded by the floor count for that spacing
+                            okc = (isinstance(ce, ast.Name) and second_counts.get(ce.id) == sa.id) or (isinstance(ce, ast.Constant) and ce.value == 1) \
+                                or (isinstance(ce, ast.Name) and ce.id in rng and all(any((hi - Rat.const(1) - (value_of(ast.Name(id=n2, ctx=ast.Load())) or Rat.atom(n2))).is_const()
+                                                                                         and (hi - Rat.const(1) - (value_of(ast.Name(id=n2, ctx=ast.Load())) or Rat.atom(n2))).const_value() <= 0
+                                                                                         for n2 in second_counts if second_counts[n2] == sa.id) for _, hi in ranges_at(ce.id, c)))
+                            if not okc:
+                                problems.append(f"{pname} = {ast.unparse(ce)} is not bounded by floor(short side / {sa.id} + 1)")
+                            continue
+                        okc, why = at_most(ce, N, f"{pname} = {ast.unparse(ce)}", c)
+                        if not okc:
+                            problems.append(why)
+            res.ob("R03.4", f"{fname}: {norm_stmt(c)[:70]} - per axis the spacing comes from that axis' side and the counts cannot exceed the count it was derived from", not problems, prog.loc(fi, c))
+            if problems:
+                res.violation("R03.4", f"extent|{fname}|{norm_stmt(c)[:70]}", prog.loc(fi, c), fi.qualname,
+                              f"{norm_stmt(c)[:90]}: " + "; ".join(problems[:3]) + " - (count - 1) * spacing can exceed the land along that axis")
+    res.count("generator_calls_extent", n_calls)
+    res.floor("generator_calls_extent", 12)
 
 
 def _count_side(fn: ast.FunctionDef, nvar: str, use: ast.stmt, eng, st):
@@ -729,6 +930,16 @@ def _check_shapes(prog: Program, res: Result):
 
 
 VARIANTS = [
+    Variant("bi_rectangular: full grid built with the short side's count on both axes", "break",
+            [(DOM, "        coordinates = rectangle(n_1, n_2, b_1, b_2)", "        coordinates = rectangle(n_2, n_2, b_1, b_2)")], "R03.4"),
+    Variant("bi_rectangular: the two spacings handed over in the wrong order", "break",
+            [(DOM, "        coordinates = rectangle(n_1, n_2, b_1, b_2)", "        coordinates = rectangle(n_1, n_2, b_2, b_1)")], "R03.4"),
+    Variant("zoned starter line one borehole too long", "break",
+            [(DOM, "            for index_l in range(1, n_min_1 + 1):\n                r = rectangle(index_l, 1, b_x, b_y)", "            for index_l in range(1, n_min_1 + 2):\n                r = rectangle(index_l, 1, b_x, b_y)")], "R03.4"),
+    Variant("zoned_rectangle_domain: swap block gives both aliases the x length", "break",
+            [(DOM, "        length_1 = length_x\n        length_2 = length_y\n        n_1 = n_x\n        n_2 = n_y", "        length_1 = length_x\n        length_2 = length_x\n        n_1 = n_x\n        n_2 = n_y")], "R03.0"),
+    Variant("zoned_rectangle_domain: spacing along the long side from the short side", "break",
+            [(DOM, "    b_1 = length_1 / (n_1 - 1)\n    b_2 = length_2 / (n_2 - 1)", "    b_1 = length_2 / (n_1 - 1)\n    b_2 = length_2 / (n_2 - 1)")], "R03.3"),
     Variant("rectangular: transposition of the main field deleted", "break",
             [(DOM, """                print(f"{num_borehole}\\t{n_2}\\t{b}\\t{b}")
             if transpose:
